@@ -12,6 +12,11 @@ ops (JSON lists):
   ['sched', clock, delta, r]        clock.sched(delta, routine r)
   ['pause', r] ['resume', r] ['stop', r]
   ['tempo', c, v] ['beats', c, v] ['beats_add', c, d] ['meter', c, v]
+  ['etempo', c, v]                  clock.etempo(v) (NRT programs only)
+  ['busy', d]                       the step takes d seconds of physical time
+                                    (RT: time.sleep; NRT: nothing)
+  ['next', r]                       (top level) routine r is stepped by hand:
+                                    r.next() from the main thread
   ['msg', tag [, [lat, elem...]]]   addr.send_msg('/m', tag [, bundle-shaped list])
   ['bundle', lat, elems]            addr.send_bundle(lat, *elems); elems are
                                     ['/b', tag] or [sublat, elem...]
@@ -159,6 +164,21 @@ class Interp:
             self.guard(who, op, self.routines[op[1]].stop)
         elif k == 'tempo':
             self.clocks[op[1]].tempo = op[2]
+        elif k == 'etempo':
+            self.clocks[op[1]].etempo(op[2])
+        elif k == 'busy':
+            import sc3.base.main as M
+            if main is M.RtMain:
+                M.time.sleep(op[1])
+        elif k == 'next':
+            # caller's logical time (= physical time for the main thread)
+            with main._main_lock:       # one action, as Routine.next is
+                self.rec(kind='next_call', r=who, h=op[1], secs=self.now(),
+                         phys=main.elapsed_time() - self.t0)
+                try:
+                    self.routines[op[1]].next()
+                except (self.stm.StopStream, self.stm.PausedStream):
+                    pass
         elif k == 'beats':
             self.clocks[op[1]].beats = op[2]
         elif k == 'beats_add':
@@ -216,8 +236,17 @@ class Interp:
             self.rec(kind='self_refused', r=who, op=op, secs=self.now())
 
     def run_top(self):
-        for op in self.prog['top']:
-            self.do(None, op)
+        import contextlib
+        busy = any(op[0] == 'busy' for r in self.prog['routines'].values()
+                   for op in r['body'])
+        # Programs with steps that take physical time: the top level runs as
+        # one action under the library's lock (as a code block evaluated by
+        # the interpreter does), otherwise a clock thread could spend time
+        # between two top-level statements and later statements would start
+        # from a later 'now' than the model's single instant.
+        with (self.main._main_lock if busy else contextlib.nullcontext()):
+            for op in self.prog['top']:
+                self.do(None, op)
 
 
 def run_nrt(prog):
